@@ -291,6 +291,9 @@ def check(plan):
     # ---- processing order and progress ----------------------------------------
     if entry in ("cli", "files"):
         order = [p for p in _input_order_from_trace(h["trace"], in_rel) if p in mirror]
+    elif entry == "file":
+        opened = set(_input_order_from_trace(h["trace"], in_rel))
+        order = [p for p in (step.get("order") or []) if p in mirror and p in opened]
     else:
         order = [p for p in (step.get("order") or []) if p in mirror]
     texts = {}
